@@ -561,4 +561,125 @@ theorem noUnhandled_run (c : Cfg) (hc : c.hasHandler = true) (acts : List Act) {
   | nil => exact h
   | cons a as ih => exact ih (noUnhandled_step c hc a h)
 
+
+/-! ### I8 — after a close that no submit call straddles, the channel only shrinks and the writer
+    leaves only on an empty channel (this is what fix 305110c buys) -/
+
+/-- once `done` is set, every submit call in progress is still at its pre-check (it will return
+    `closed`): no call is between the pre-check and its channel send -/
+def NoRace (s : St) : Prop := s.done = true → ∀ p ∈ s.pend, p.pc = .pre
+
+/-- the writer can only be past its final empty drain with an empty channel -/
+def ExitClean (s : St) : Prop :=
+  (s.wpc = .exited ∨ (s.wpc = .flush true ∧ s.batch = [])) → s.chan = []
+
+theorem subStep_noRace (c : Cfg) (s : St) (t pick : Nat) (hd : s.done = true)
+    (hp : ∀ p ∈ s.pend, p.pc = .pre) :
+    (subStep c s t pick).chan = s.chan ∧ ∀ p ∈ (subStep c s t pick).pend, p.pc = .pre := by
+  unfold subStep
+  split
+  · exact ⟨rfl, hp⟩
+  · rename_i p hfind
+    have hmem : p ∈ s.pend := List.mem_of_find?_eq_some hfind
+    have hpc := hp p hmem
+    rw [hpc]
+    simp only [hd, if_true, finish, removePend]
+    refine ⟨trivial, ?_⟩
+    intro q hq
+    exact hp q (List.mem_filter.mp hq).1
+
+theorem noRace_step (c : Cfg) {s : St} (a : Act) (h : NoRace s)
+    (hclose : a = .close → ∀ p ∈ s.pend, p.pc = .pre) : NoRace (step c s a) := by
+  cases a with
+  | begin m =>
+    simp only [step]
+    split
+    · exact h
+    · intro hd p hp
+      simp only [List.mem_append, List.mem_singleton] at hp
+      rcases hp with hp | hp
+      · exact h hd p hp
+      · subst hp; rfl
+  | cancel t =>
+    intro hd p hp
+    simp only [step, setCtxDone, List.mem_map] at hp
+    obtain ⟨q, hq, rfl⟩ := hp
+    have := h hd q hq
+    split <;> simpa using this
+  | sub t pick =>
+    simp only [step]
+    intro hd
+    obtain ⟨_, _, _, _, _, h6, _⟩ := subStep_frame c s t pick
+    rw [h6] at hd
+    exact (subStep_noRace c s t pick hd (h hd)).2
+  | close => intro _; exact hclose rfl
+  | wstep pick ok =>
+    simp only [step]
+    obtain ⟨_, h2, _, h4⟩ := wStep_core c s pick ok
+    intro hd; rw [h2]; rw [h4] at hd; exact h hd
+  | fdrain =>
+    simp only [step, fdrainStep]
+    split
+    · exact h
+    · exact h
+  | sysdown => exact h
+
+theorem exitClean_step (c : Cfg) (hmb : 0 < c.maxBatch) {s : St} (a : Act)
+    (hn : NoRace s) (hc : Closing s) (he : ExitClean s) : ExitClean (step c s a) := by
+  cases a with
+  | begin m =>
+    simp only [step]
+    split
+    · exact he
+    · exact he
+  | cancel t => exact he
+  | sub t pick =>
+    simp only [step]
+    obtain ⟨_, _, _, _, _, _, h7, h8, _⟩ := subStep_frame c s t pick
+    intro hw
+    rw [h7, h8] at hw
+    have hd : s.done = true := by
+      rcases hw with hw | hw
+      · exact hc (Or.inr (Or.inr hw))
+      · exact hc (Or.inr (Or.inl hw.1))
+    rw [(subStep_noRace c s t pick hd (hn hd)).1]
+    exact he hw
+  | close => exact he
+  | wstep pick ok =>
+    simp only [step]
+    unfold wStep
+    split
+    · exact he
+    · split
+      · exact he
+      · intro hw; simp at hw
+      · intro hw; simp at hw
+      · split <;> (intro hw; simp at hw)
+    · rename_i cl hwpc
+      split
+      · split
+        · rename_i hch
+          intro _; exact hch
+        · intro hw; simp [hwpc] at hw
+      · rename_i hlen
+        intro hw
+        simp only [WPc.flush.injEq, reduceCtorEq, false_or] at hw
+        have : s.batch.length = 0 := by rw [hw.2]; rfl
+        omega
+    · rename_i cl hwpc
+      split
+      · rename_i hb
+        intro hw
+        cases cl
+        · simp [afterFlush] at hw
+        · exact he (Or.inr ⟨hwpc, hb⟩)
+      · intro hw
+        cases cl <;> simp [afterBatch] at hw
+  | fdrain =>
+    simp only [step, fdrainStep]
+    split
+    · exact he
+    · exact he
+  | sysdown => exact he
+
 end GoaktVerif.C27
